@@ -122,6 +122,7 @@ class SyncKill:
                 self.stats['content_loads'] += 1
                 if not loads_ok(rc_):
                     chk.violation('load', 'after a sync killed at call %d (%s) `%s` cannot load the content (rc %d): %s' % (k, mode, ' '.join(cmd), rc_.rc, (rc_.err or rc_.out)[-200:]), rep)
+            race_key = None
             # 3. kill_inv: every copy that decodes satisfies the C06 invariant with the parity on disk
             for i, st in vc:
                 errs = a.check_map(st)
@@ -131,6 +132,7 @@ class SyncKill:
                     race = self.autosave_at and self.cache > 1
                     if race:
                         self.stats['autosave_race_hits'] += 1
+                        race_key = KEY_AUTOSAVE     # what follows from it in this case (stale parity never repaired, recovery failing) is the same finding
                     chk.violation('kill_inv', 'sync killed at call %d (%s): content copy %d records a stripe as synced whose parity is not valid: %s' % (k, mode, i, e),
                                   rep, finding_key=KEY_AUTOSAVE if race else None)
             # 4. adds only: every file synced before stays recoverable from any single lost device
@@ -147,7 +149,7 @@ class SyncKill:
                         if torn and a.np == 1:
                             self.stats['torn_write_np1_unrecoverable'] += 1     # Q-C07: measured, not a violation
                         else:
-                            chk.violation('adds_only', 'sync (additions only) killed at call %d (%s): after losing %s, fix does not restore the previously synced %s' % (k, mode, dev, bad[:2]), rep)
+                            chk.violation('adds_only', 'sync (additions only) killed at call %d (%s): after losing %s, fix does not restore the previously synced %s' % (k, mode, dev, bad[:2]), rep, finding_key=race_key)
             # 5. the next sync completes and re-establishes the guarantee
             rs = a.run('sync')
             if rs.rc != 0:
@@ -158,7 +160,7 @@ class SyncKill:
             left = all_synced(a, st)
             perr, _ = a.check_parity(st)
             if left or perr:
-                chk.violation('resume_state', 'sync after a sync killed at call %d (%s) leaves stripes %s unsynced, parity errors %s' % (k, mode, left, perr[:2]), rep)
+                chk.violation('resume_state', 'sync after a sync killed at call %d (%s) leaves stripes %s unsynced, parity errors %s' % (k, mode, left, perr[:2]), rep, finding_key=race_key)
             d = data_equal(self.pre_snap, a.snapshot_data())
             if d:
                 chk.violation('data_modified', 'the resumed sync modified data files: %s' % d[:3], rep)
@@ -174,7 +176,7 @@ class SyncKill:
                     exp = {kk: v for kk, v in final.items() if kk[0] == dname}
                     dd = data_equal(exp, got)
                     if rf.rc != 0 or dd:
-                        chk.violation('c01', 'after kill at call %d (%s) and a completed sync, losing %s is not recovered by fix (rc %d): %s' % (k, mode, dname, rf.rc, dd[:3]), rep)
+                        chk.violation('c01', 'after kill at call %d (%s) and a completed sync, losing %s is not recovered by fix (rc %d): %s' % (k, mode, dname, rf.rc, dd[:3]), rep, finding_key=race_key)
                 finally:
                     drop(b)
         finally:
@@ -249,7 +251,10 @@ class SyncKill:
         for e in main_model:
             if not mm or mm[-1] != e:
                 mm.append(e)
-        main_real = [e[0] for e in real if e[0] != 'W']
+        main_real = []
+        for e in real:
+            if e[0] != 'W' and (not main_real or main_real[-1] != e[0]):
+                main_real.append(e[0])      # writer threads interleave with the calls of one main-thread event
         problems = []
         if mm != main_real:
             problems.append('main-thread events differ: model %s real %s' % (''.join(mm), ''.join(main_real)))
@@ -389,6 +394,8 @@ class FixKill:
     def damage(self, a):
         shutil.rmtree(os.path.join(a.root, 'd1'))
         os.makedirs(os.path.join(a.root, 'd1'))
+        if self.np < 2:
+            return          # one parity level: the lost disk alone uses up the redundancy
         # a damaged block in the middle of d2/x, same size and mtime (silent error)
         p = a.path('d2', 'x')
         st = os.stat(p)
@@ -420,21 +427,26 @@ class FixKill:
                 if r.rc != self.ref_rc:
                     chk.violation('fix_rc', 'fix with VSHIM_KILL=%d:%s neither killed nor equal to the reference (rc %d)' % (k, mode, r.rc), rep)
                 return
-            # which file was being rewritten at the kill
+            # the files whose rewrite was cut short: written (or created) by the killed fix and not yet given their time back
             kl = shim_log(klog)
-            cur = None
-            for (n, call, path, rest) in reversed(kl):
-                if os.path.basename(os.path.dirname(path)).startswith('d') or '/d' in path.replace(a.root, ''):
-                    cur = path.replace(a.root + '/', '')
-                    break
+            open_files = {}
+            for (n, call, path, rest) in kl:
+                rel = path.replace(a.root + '/', '')
+                parts = rel.split('/', 1)
+                if len(parts) != 2 or parts[0] not in a.disks:
+                    continue
+                key = (parts[0], parts[1].replace('.unrecoverable', ''))
+                if call in ('pwrite', 'open', 'ftruncate'):
+                    open_files[key] = True
+                elif call in ('futimens', 'utimensat') and 'KILL-BEFORE' not in rest:
+                    open_files.pop(key, None)
             r2 = a.run('fix')
             got = a.snapshot_data()
-            ignore = set()
-            if cur:
-                parts = cur.split('/', 1)
-                if len(parts) == 2:
-                    ignore.add((parts[0], parts[1]))
-                    ignore.add((parts[0], parts[1].replace('.unrecoverable', '')))
+            ignore = set(open_files)
+            inodes = {got[kk][3] for kk in ignore if kk in got and got[kk][0] == 'f'}
+            for kk, v in got.items():
+                if v[0] == 'f' and v[3] in inodes:
+                    ignore.add(kk)          # hard links of a cut-short file share its time
             dd = data_equal(self.ref, got, ignore_mtime_of=ignore)
             dd_strict = data_equal(self.ref, got)
             if r2.rc != self.ref_rc or dd:
@@ -445,6 +457,26 @@ class FixKill:
                     self.stats['mtime_only_diffs'] += 1
         finally:
             drop(a)
+
+
+def unrecoverable_rerun_probe(binary, shim):
+    """measured, not judged: with more damage than redundancy (one parity, a lost disk AND a silent error in the same stripe) an
+    uninterrupted fix leaves *.unrecoverable files; what do further fix runs do?"""
+    F = FixKill.__new__(FixKill)
+    F.binary, F.shim, F.np = binary, shim, 1
+    a = F.build()
+    try:
+        F.np = 2
+        F.damage(a)
+        res = []
+        for i in range(3):
+            r = a.run('fix')
+            names = sorted('%s/%s' % k for k, v in a.snapshot_data().items() if v[0] == 'f')
+            res.append({'run': i + 1, 'rc': r.rc, 'exit': r.summary().get('exit'), 'unrecoverable_files': [n for n in names if n.endswith('.unrecoverable')],
+                        'message': [l for l in r.err.split('\n') if 'disappeared' in l or 'rerun' in l][:2]})
+        return res
+    finally:
+        drop(a)
 
 
 # -------------------------------------------------------------------------------------------------- the autosave race witness
@@ -557,11 +589,13 @@ def main(tier, replay=None):
         for k, v in F.stats.items():
             fstats[k] = fstats.get(k, 0) + v
         fconf.append({'np': np_, 'calls': len(F.calls), 'kill_points': len(pts)})
+    probe = unrecoverable_rerun_probe(binary, shim)
     n_eval = tot.get('kills', 0) + sstats['signals'] + fstats.get('kills', 0)
     chk.cov.update({'evaluations': n_eval, 'distinct_nontrivial': n_eval,
                     'rule': 'EVERY numbered state-changing call k of a reference sync (and of a reference fix) x {before, after, short for write/pwrite}: one fresh deterministic array per point, killed there; SIGINT/SIGTERM at every parity write of slowed syncs; non-trivial = runs really interrupted',
                     'sync_kill_configurations': conf_sum, 'sync_kill': tot, 'graceful_stop': sstats, 'fix_kill_configurations': fconf, 'fix_kill': fstats,
                     'torn_write_np1_unrecoverable': tot.get('torn_write_np1_unrecoverable', 0), 'autosave_race': aw,
+                    'fix_rerun_after_unrecoverable_result (measured, not judged)': probe,
                     'traces_validated_against_impl': traces_ok})
     chk.cov['samples'] = conf_sum[:3] + fconf[:1]
     if ob['failed'] and not chk.violations:
